@@ -90,11 +90,36 @@ def P18(m, R):
                 tt[(kp, zero)] = eval_guard(guard.test, flag_valuation({keep: kp}, {'%s != 0' % k: not zero, '%s == 0' % k: zero}))
         if tt != {(True, True): False, (True, False): True, (False, True): True, (False, False): True}:
             problems.append('a key is moved for (keep_origin, key==0) in %s; only (True, True) may stay' % sorted(kk for kk, v in tt.items() if v))
-        body = [norm(s) for s in guard.body]
-        want1 = ['new_key = max(%s + %s, 0)' % (k, num), 'self.%s[new_key] = self.%s.pop(%s)' % (TABLE, TABLE, k)]
-        if body != want1 and body != ['self.%s[%s + %s] = self.%s.pop(%s)' % (TABLE, k, num, TABLE, k)]:
-            problems.append('re-keying is %s, expected table[key + num] = table.pop(key)' % body)
+        env = {}
+        mv = None
+        for s_ in guard.body:
+            if isinstance(s_, ast.Assign) and isinstance(s_.targets[0], ast.Name):
+                env[s_.targets[0].id] = s_.value
+            elif isinstance(s_, ast.Assign) and isinstance(s_.targets[0], ast.Subscript):
+                mv = s_
+        okmv = False
+        if mv is not None and norm(mv.targets[0].value) == 'self.' + TABLE and norm(mv.value) == 'self.%s.pop(%s)' % (TABLE, k):
+            key = subst(mv.targets[0].slice, env)
+            # key + num, optionally clamped from below by a bound <= 0 (num is never negative here)
+            if call_name(key) == 'max' and len(key.args) == 2:
+                consts = [const_val(a, None) for a in key.args]
+                others = [a for a, c in zip(key.args, consts) if c is None]
+                cs = [c for c in consts if c is not None]
+                if len(others) == 1 and len(cs) == 1 and cs[0] <= 0:
+                    key = others[0]
+            okmv = norm(key) in ('%s + %s' % (k, num), '%s + %s' % (num, k))
+        if not okmv:
+            problems.append('re-keying is %s, expected table[key + num] = table.pop(key)' % [norm(s_) for s_ in guard.body])
     neg = next((n for n in sh.body if isinstance(n, ast.If) and any(isinstance(x, ast.Raise) for x in n.body)), None)
+    if neg is not None:
+        from ..finite import int_eval
+        try:
+            tt = {v: bool(int_eval(neg.test, {num: v})) for v in (-2, -1, 0, 1, 2)}
+        except Undecided:
+            tt = None
+        if tt is not None and (tt[0] or tt[1] or tt[2]):
+            problems.append('the helper rejects the count %s (guard %s): a shift by 0 is what center() asks for when only one fill character is added on the right'
+                            % ([v for v in (0, 1, 2) if tt[v]], short(neg.test)))
     R.check(not problems, sh, lp, 'shift maps k -> k + num (descending), keeping 0 iff keep_origin', '; '.join(problems), construct=cons)
     for name in ('ljust', 'rjust', 'center'):
         f = m.fn('AnsiString.' + name)
@@ -356,6 +381,8 @@ def _while_progress(R, f, lp, cfg, cons, measure_var, measure_len, extra=None):
             k = const_val(st.value, None)
             if isinstance(k, int):
                 c += sign * k
+                if k > 1:
+                    env['#skip'] = (k, st.lineno)
             else:
                 sym += ((sign, norm(st.value)),)
         elif isinstance(st, ast.Assign) and norm(st.targets[0]) == measure_var:
@@ -365,6 +392,9 @@ def _while_progress(R, f, lp, cfg, cons, measure_var, measure_len, extra=None):
         elif isinstance(st, ast.Assign) and isinstance(st.targets[0], ast.Subscript) and norm(st.targets[0].value) == measure_len and \
                 isinstance(st.targets[0].slice, ast.Slice) and norm(st.targets[0].slice.lower) == norm(st.targets[0].slice.upper):
             sym += ((1, 'len(%s)' % norm(st.value)),)
+            env['#inserted'] = norm(st.value)
+        elif isinstance(st, ast.Assign) and isinstance(st.value, ast.List) and not st.value.elts and isinstance(st.targets[0], ast.Name):
+            env['#reset'] = env.get('#reset', ()) + (st.targets[0].id,)
         elif isinstance(st, ast.Expr) and isinstance(st.value, ast.Call) and isinstance(st.value.func, ast.Attribute) and \
                 norm(st.value.func.value) == measure_len and st.value.func.attr in ('append', 'insert', 'extend'):
             sym += ((1, 'grows by ' + st.value.func.attr),)
@@ -386,8 +416,14 @@ def _while_progress(R, f, lp, cfg, cons, measure_var, measure_len, extra=None):
             else:
                 bal[t] = bal.get(t, 0) + sg
         resid = {t: v for t, v in bal.items() if v}
+        # elements inserted from a consumed run (the run accumulator is emptied on the same path) are never runs again:
+        # the number of pending run elements is the decreasing quantity there, the index still moves forward
+        if env.get('#inserted') and env.get('#reset') and c < 0:
+            resid = {t: v for t, v in resid.items() if t != 'len(%s)' % env['#inserted']}
         nonpos = all(v < 0 and (extra or {}).get(t, 'pos') in ('pos', 'nonneg') for t, v in resid.items())
         strictly = c < 0 or any(v < 0 and (extra or {}).get(t) == 'pos' for t, v in resid.items())
+        if env.get('#skip'):
+            other = other + ['steps over %d elements at once (L%d): elements are skipped unseen' % env['#skip']]
         if other or not nonpos or not strictly:
             bad.append((p, c, resid, other))
     return n, bad
@@ -636,7 +672,16 @@ def E8(m, R):
                 elif cn == '_shift_settings_idx':
                     # named exception (DESIGN 2.4): raises only for a negative count; here the count is num or floor(num/2) under `num > 0`
                     arg = norm(x.args[0]) if x.args else ''
-                    guarded = any(isinstance(p, ast.If) and re.match(r'^\w+ > 0$', norm(p.test)) for p in _parents(x))
+                    guarded = False
+                    from ..finite import int_eval
+                    for p in _parents(x):
+                        if isinstance(p, ast.If) and isinstance(p.test, ast.Compare) and isinstance(p.test.left, ast.Name):
+                            nm = p.test.left.id
+                            try:
+                                # the guard holds for no negative value of the count it tests
+                                guarded = guarded or not any(int_eval(p.test, {nm: v}) for v in (-3, -2, -1))
+                            except Undecided:
+                                pass
                     if not guarded:
                         rnodes.append((nd, '_shift_settings_idx (ValueError for a negative count) outside a `num > 0` guard'))
         # building the fill text (str * int) raises OverflowError / MemoryError for a huge width -- the same error str raises
@@ -680,6 +725,12 @@ def E9(m, R):
         if node.kind == 'stmt' and isinstance(st, ast.Assign) and isinstance(st.targets[0], ast.Name):
             d = dict(env.get('#def', ()))
             uses = settings in names_in(st.value)
+            v0 = st.value
+            if uses and isinstance(v0, ast.Call) and call_name(v0) == 'AnsiString':
+                # AnsiString(<source>, *settings): the source first, the settings starred after it
+                shape_ok = len(v0.args) == 2 and isinstance(v0.args[1], ast.Starred) and norm(v0.args[1].value) == settings and not isinstance(v0.args[0], ast.Starred)
+                if not shape_ok:
+                    env['#badshape'] = norm(v0)
             # x = y : inherits
             if isinstance(st.value, ast.Name) and st.value.id in d:
                 uses = d[st.value.id]
@@ -708,6 +759,10 @@ def E9(m, R):
     for key, items in sorted(by_branch.items()):
         cons = 'AnsiStr(%s source, %s)' % key
         bad = [(p, w) for p, may, w in items if may and (w is None or not w[0])]
+        shape = [e for p, e in ps if p[-1].kind == 'return' and e.get('#badshape')]
+        if shape and not bad:
+            R.viol(f, f.node, 'the wrapped object is built by %s: source and settings are not passed as (source, *settings)' % shape[0]['#badshape'], construct=cons)
+            continue
         if bad:
             p, w = bad[0]
             R.viol(f, p[-1].stmt, 'with a %s source and settings given, the wrapped object is %s: the settings never reach it and are silently dropped'
